@@ -27,8 +27,8 @@ rows = [
  dict(fn=BLK, form='Ge(index, len(stmts))=!0 & last_expr=Some', meaning='tail expression ↦ its own translation under the block environment', term='⟨compile(last_expr@Some.0)⟩', events=['compile(last_expr@Some.0)']),
  dict(fn=EX, form='inner(self)=Single', meaning='single expression ↦ itself', term='⟨compile(inner(self)@Single.0)⟩', events=['compile(inner(self)@Single.0)']),
  dict(fn=EX, form='inner(self)=Block', meaning='{ stmts; e } ↦ block translation inside a fresh scope that is popped afterwards (also on the error path: pop follows unconditionally)',
-      term='⟨compile_blk(inner(self)@Block.0, 0_usize, map(inner(self)@Block.1, as_ref))⟩',
-      events=['push_scope()', 'compile_blk(inner(self)@Block.0, 0_usize, map(inner(self)@Block.1, as_ref))', 'pop_scope()']),
+      term='⟨compile_blk(inner(self)@Block.0, 0_usize, inner(self)@Block.1)⟩',
+      events=['push_scope()', 'compile_blk(inner(self)@Block.0, 0_usize, inner(self)@Block.1)', 'pop_scope()']),
  # ---- single expressions
  dict(fn=SE, form='inner(self)=Constant', meaning='literal ↦ comp unit (const v)', term='comp(unit, scribe[from(inner(self)@Constant.0)])', events=[U]),
  dict(fn=SE, form='inner(self)=Parameter', meaning='param::N ↦ comp unit (const argument N): same schema as a literal', term='comp(unit, scribe[from(get_argument(scope, inner(self)@Parameter.0))])', events=[U]),
